@@ -111,6 +111,18 @@ int puts(const char *s) { return nondet_int(); }
 int fputs(const char *s, FILE *f) { return nondet_int(); }
 void perror(const char *s) { }
 
+/* strlen with its precondition spelled out: verdict-mode queries run without CBMC's pointer checks,
+ * where strlen(NULL) would otherwise just wander off; the path ends at the failed obligation */
+size_t strlen(const char *s)
+{
+	size_t n = 0;
+	__CPROVER_assert(s != NULL, "strlen(NULL): undefined behaviour (crash)");
+	__CPROVER_assume(s != NULL);
+	while (s[n] != '\0')
+		n++;
+	return n;
+}
+
 size_t strcspn(const char *s, const char *reject)
 {
 	size_t i, k;
